@@ -6,6 +6,8 @@ package main
 import (
 	"fmt"
 	"strings"
+	"sync"
+	"sync/atomic"
 
 	"goa.design/goa/v3/expr"
 
@@ -25,6 +27,9 @@ type Witness struct {
 	Hostile bool   `json:"hostile,omitempty"`
 	Op      string `json:"op,omitempty"`
 	Note    string `json:"note,omitempty"`
+
+	bg, bh  *built // prebuilt values of G and H (never serialised)
+	observe bool   // also record the not-judged observations (fidelity, shared memory)
 }
 
 func parseFlags(s string) flags {
@@ -66,11 +71,24 @@ func (r *rec) Inconclusive(why string) {
 	r.evs = append(r.evs, event{kind: "inconcl", a: why})
 }
 
+var (
+	forwardedMu sync.Mutex
+	forwarded   = map[string]int{}
+)
+
 func (r *rec) flush(run *vc.Run) {
 	for _, e := range r.evs {
 		switch e.kind {
 		case "viol":
-			run.Violation(e.a, e.b, e.w)
+			// the runtime keeps at most 40 witnesses per run: forward two per key so that every key gets one
+			forwardedMu.Lock()
+			forwarded[e.a]++
+			n := forwarded[e.a]
+			forwardedMu.Unlock()
+			run.Count("violating_cases["+e.a+"]", 1)
+			if n <= 2 {
+				run.Violation(e.a, e.b, e.w)
+			}
 		case "eval":
 			run.Eval(e.n)
 		case "count":
@@ -114,6 +132,26 @@ func safeDup(b *built, api string) (att *expr.AttributeExpr, dt expr.DataType, p
 }
 
 func panicKey(p string) string { return strings.SplitN(p, " ", 2)[0] }
+
+// metaOrderBroken is set as soon as one value was seen to hash unstably in this
+// run (the exhaustive probes run first). From then on a mismatch between two
+// graphs that should hash equally is attributed to that finding -- not to the
+// transform under test -- when ignoreTags is off and one of the graphs has an
+// attribute with >= 2 struct:field keys (20 repetitions alone miss a 2-key map
+// about 7% of the time). Once Hash is stable nothing is masked.
+var metaOrderBroken atomic.Bool
+
+func maskByMetaOrder(fl flags, gs ...*Graph) bool {
+	if fl.T || !metaOrderBroken.Load() {
+		return false
+	}
+	for _, g := range gs {
+		if g.multiTagAny() {
+			return true
+		}
+	}
+	return false
+}
 
 // unstable reports whether hashing the same value again gives another answer.
 func unstable(dt expr.DataType, fl flags, reps int) (bool, int) {
@@ -199,7 +237,13 @@ func evalPair(rc *rec, w Witness) (status, key, what string) {
 	if w.G.objectFreeCycle() || w.H.objectFreeCycle() {
 		return "skipped", "", "a cycle avoids every object (separate class, child processes only)"
 	}
-	bg, bh := build(w.G), build(w.H)
+	bg, bh := w.bg, w.bh
+	if bg == nil {
+		bg = build(w.G)
+	}
+	if bh == nil {
+		bh = build(w.H)
+	}
 	hg, p1 := safeHash(bg.root.Type, fl)
 	hh, p2 := safeHash(bh.root.Type, fl)
 	if p1 != "" || p2 != "" {
@@ -218,6 +262,10 @@ func evalPair(rc *rec, w Witness) (status, key, what string) {
 		uh, nh := unstable(bh.root.Type, fl, 20)
 		if ug || uh {
 			rc.say("  hashes differ but Hash is not even stable on one side (%d / %d distinct values in 20 calls): attributed to the nondeterminism finding", ng, nh)
+			return "masked", "", ""
+		}
+		if maskByMetaOrder(fl, w.G, w.H) {
+			rc.say("  hashes differ, but this run already found Hash unstable on attributes with >=2 struct:field keys and these graphs have such attributes: attributed to that finding")
 			return "masked", "", ""
 		}
 		return "violated", equalKey(w, fl), fmt.Sprintf("structurally equal under the documented rules (flags %s, %s) but Hash differs: %q vs %q", fl, w.Class, clip(hg), clip(hh))
@@ -319,6 +367,7 @@ func doDeterminism(rc *rec, w Witness) (stable [8]bool) {
 		u, n := unstable(b.root.Type, fl, reps)
 		rc.say("determinism flags=%s: %d distinct values in %d calls on the same value", fl, max(n, 1), reps)
 		if u {
+			metaOrderBroken.Store(true)
 			ww := w
 			ww.Flags = fl.String()
 			rc.Violation(nondetKey(w.G), fmt.Sprintf("Hash of one and the same value returned %d distinct strings in %d calls (flags %s)", n, reps, fl), ww)
@@ -368,7 +417,7 @@ func firstDiffField(a, b []snapLine) string {
 func doDupMutation(rc *rec, w Witness) {
 	w.Check = "dup-mutation"
 	b := build(w.G)
-	before := snapshot(b.root)
+	before := snapHash(b.root)
 	att, dt, p := safeDup(b, w.API)
 	if p != "" {
 		rc.Eval(1)
@@ -390,12 +439,20 @@ func doDupMutation(rc *rec, w Witness) {
 	rc.Eval(1)
 	rc.Count("copy_mutations_applied", n)
 	rc.Seen("mutation_classes_applied", w.Class)
-	after := snapshot(b.root)
-	d := snapDiff(before, after)
-	rc.say("%s then %s on the copy (%d edits); original snapshot: %d lines before, %d after; first difference: %q", w.API, w.Class, n, len(before), len(after), d)
+	if after := snapHash(b.root); after == before && !rc.verbose {
+		return
+	}
+	// the original moved (or replay): redo the same steps with full snapshots to say where
+	b = build(w.G)
+	beforeL := snapshot(b.root)
+	att, dt, _ = safeDup(b, w.API)
+	n = mutate(w.Class, collect(att, dt))
+	afterL := snapshot(b.root)
+	d := snapDiff(beforeL, afterL)
+	rc.say("%s then %s on the copy (%d edits); snapshot of the original: %d lines before, %d after; first difference: %q", w.API, w.Class, n, len(beforeL), len(afterL), d)
 	if d != "" {
 		rc.Violation("dup-not-independent mutation="+w.Class,
-			fmt.Sprintf("after %s, %s applied to the COPY changed the ORIGINAL (field %s): %s", w.API, w.Class, firstDiffField(before, after), d), w)
+			fmt.Sprintf("after %s, %s applied to the COPY changed the ORIGINAL (field %s): %s", w.API, w.Class, firstDiffField(beforeL, afterL), d), w)
 	} else {
 		rc.say("  => held")
 	}
@@ -454,7 +511,7 @@ func doDupEqual(rc *rec, w Witness) {
 			break
 		}
 		if ho != hc {
-			if u, _ := unstable(b.root.Type, fl, 20); u {
+			if u, _ := unstable(b.root.Type, fl, 20); u || maskByMetaOrder(fl, w.G) {
 				rc.Count("equal_pairs_masked_by_hash_nondeterminism", 1)
 				continue
 			}
@@ -473,7 +530,7 @@ func doDupEqual(rc *rec, w Witness) {
 	if att != nil {
 		top = att
 	}
-	first := snapshot(top)
+	first := snapHash(top)
 	for i := 1; i < reps; i++ {
 		a2, d2, p := safeDup(b, w.API)
 		if p != "" {
@@ -484,23 +541,27 @@ func doDupEqual(rc *rec, w Witness) {
 		if a2 != nil {
 			t2 = a2
 		}
-		if d := snapDiff(first, snapshot(t2)); d != "" {
-			rc.Violation("dup-nondeterministic", fmt.Sprintf("two calls of %s on the same value gave different copies: %s", w.API, d), w)
+		if snapHash(t2) != first {
+			rc.Violation("dup-nondeterministic", fmt.Sprintf("two calls of %s on the same value gave different copies: %s", w.API, snapDiff(snapshot(top), snapshot(t2))), w)
 			break
 		}
 	}
 	rc.Count("dup_repeat_calls", reps)
 	// 5. observations (not judged): fidelity and shared memory
+	if !w.observe && !rc.verbose {
+		return
+	}
 	var orig any = b.root.Type
 	if att != nil {
 		orig = b.root
 	}
-	so := snapshot(orig)
-	if d := snapDiff(so, first); d != "" {
-		rc.Seen("dup_copy_differs_from_original_in_field", firstDiffField(so, first))
-		rc.say("  observation: copy is not a field-for-field replica: %s", d)
+	so, sc := snapshot(orig), snapshot(top)
+	if d := snapDiff(so, sc); d != "" {
+		rc.Seen("dup_copy_differs_from_original_in_field", firstDiffField(so, sc))
+		rc.say("  observation (not judged): copy is not a field-for-field replica: %s", d)
 	}
 	for _, s := range sharedMutable(orig, top) {
 		rc.Seen("dup_memory_shared_with_original", s)
+		rc.say("  observation (not judged): memory shared between original and copy: %s", s)
 	}
 }
